@@ -144,3 +144,160 @@ class pydbml_new:
     def ensures_funnel_file(cls, source_, allow_properties, sql_renderer, dbml_renderer, result):
         return not (isinstance(source_, Path) or isinstance(source_, TextIOWrapper)) or \
             result is parse_of(strip_one_bom(text_of(source_)), allow_properties, sql_renderer, dbml_renderer)
+
+
+# ------------------------------------------------------------------------------------------ the collecting action
+from pyvc.verify import loc_list, loc_cls      # noqa: E402
+from pyvc.verify import loc as field_at      # noqa: E402  (the action's own parameter is called `loc`)
+from pyvc.speclib import old      # noqa: E402,F811
+from contracts.database import appended, same_list      # noqa: E402
+from contracts.blueprints import col_refs_collected      # noqa: E402
+from pydbml.parser.blueprints import (TableBlueprint, ReferenceBlueprint, EnumBlueprint, TableGroupBlueprint,      # noqa: E402
+                                      ProjectBlueprint, StickyNoteBlueprint, ColumnBlueprint, IndexBlueprint,
+                                      NoteBlueprint, EnumItemBlueprint)
+
+
+def owned_note(parser, n):
+    return n is None or n.parser is parser
+
+
+def not_a_parser_list(parser, xs):
+    return (xs is None or (xs is not parser.refs and xs is not parser.tables and xs is not parser.enums
+                           and xs is not parser.table_groups and xs is not parser.sticky_notes))
+
+
+def tail_tied(parser, xs, old_xs):
+    """every element appended to xs since old_xs is tied to the parser (stated per position of xs)"""
+    return all(k < len(old_xs) or xs[k].parser is parser for k in range(len(xs)))
+
+
+def suffix_is(xs, old_xs, ys, i):
+    """xs == old_xs + ys[:i]  (by identity)"""
+    return (len(xs) == len(old_xs) + i and all(xs[k] is old_xs[k] for k in range(len(old_xs)))
+            and all(xs[len(old_xs) + j] is ys[j] for j in range(i)))
+
+
+@contract('pydbml.parser.parser:PyDBMLParser.parse_blueprint')
+class parse_blueprint:
+    """The parser's collecting action (C01, C07): the element just parsed is appended to the list of its kind
+    (a project is stored), it and everything it contains — columns, indexes, items, their notes, inline
+    references — is tied to this parser, a table's inline references are appended to the reference list, and
+    the other lists stay as they were.  Four loops are verified by invariant."""
+    properties = ('C01', 'C05', 'C11')
+    params = {'self': 'PyDBMLParser', 's': 'str', 'loc': 'int',
+              'tok': 'PR(0:Union[TableBlueprint,ReferenceBlueprint,EnumBlueprint,TableGroupBlueprint,ProjectBlueprint,StickyNoteBlueprint])'}
+
+    def requires_columns(self, s, loc, tok):
+        return not isinstance(tok[0], TableBlueprint) or tok[0].columns is not None
+
+    min_timeout_ms = 8000
+
+    def requires_distinct_lists(self, s, loc, tok):
+        # the parser's five collections are five lists (PyDBMLParser.__init__ creates them so) ...
+        return (self.refs is not self.tables and self.refs is not self.enums and self.refs is not self.table_groups
+                and self.refs is not self.sticky_notes and self.tables is not self.enums
+                and self.tables is not self.table_groups and self.tables is not self.sticky_notes
+                and self.enums is not self.table_groups and self.enums is not self.sticky_notes
+                and self.table_groups is not self.sticky_notes)
+
+    def requires_private_lists(self, s, loc, tok):
+        # ... and no blueprint uses one of them as its own list of columns, indexes, items or inline references
+        return ((not isinstance(tok[0], TableBlueprint)
+                 or (not_a_parser_list(self, tok[0].columns) and not_a_parser_list(self, tok[0].indexes)
+                     and all(not_a_parser_list(self, c.ref_blueprints) for c in tok[0].columns)))
+                and (not isinstance(tok[0], EnumBlueprint) or not_a_parser_list(self, tok[0].items)))
+
+    def modifies(self, s, loc, tok):
+        return [loc_list(self.tables), loc_list(self.refs), loc_list(self.enums), loc_list(self.table_groups),
+                loc_list(self.sticky_notes), field_at(self, 'project'),
+                loc_cls(TableBlueprint, 'parser'), loc_cls(ReferenceBlueprint, 'parser'), loc_cls(EnumBlueprint, 'parser'),
+                loc_cls(TableGroupBlueprint, 'parser'), loc_cls(ProjectBlueprint, 'parser'),
+                loc_cls(StickyNoteBlueprint, 'parser'), loc_cls(ColumnBlueprint, 'parser'),
+                loc_cls(IndexBlueprint, 'parser'), loc_cls(NoteBlueprint, 'parser'),
+                loc_cls(ReferenceBlueprint, 'schema1'), loc_cls(ReferenceBlueprint, 'table1'),
+                loc_cls(ReferenceBlueprint, 'col1')]
+
+    # -- inline references of a table
+    def loop0_modifies(self, s, loc, tok):
+        return [loc_list(self.refs), loc_cls(ReferenceBlueprint, 'parser')]
+
+    def loop0_invariant(self, s, loc, tok, blueprint, ref_bps, i):
+        return (suffix_is(self.refs, old(self.refs), ref_bps, i) and all(ref_bps[j].parser is self for j in range(i))
+                and tail_tied(self, self.refs, old(self.refs))
+                and appended(self.tables, old(self.tables), blueprint))
+
+    # -- columns
+    def loop1_modifies(self, s, loc, tok):
+        return [loc_cls(ColumnBlueprint, 'parser'), loc_cls(NoteBlueprint, 'parser')]
+
+    def loop1_invariant(self, s, loc, tok, blueprint, ref_bps, col_bps, i):
+        return (suffix_is(self.refs, old(self.refs), ref_bps, len(ref_bps))
+                and all(ref_bps[j].parser is self for j in range(len(ref_bps)))
+                and tail_tied(self, self.refs, old(self.refs))
+                and appended(self.tables, old(self.tables), blueprint)
+                and all(col_bps[j].parser is self and owned_note(self, col_bps[j].note) for j in range(i)))
+
+    # -- indexes
+    def loop2_modifies(self, s, loc, tok):
+        return [loc_cls(IndexBlueprint, 'parser'), loc_cls(NoteBlueprint, 'parser')]
+
+    def loop2_invariant(self, s, loc, tok, blueprint, ref_bps, col_bps, index_bps, i):
+        return (suffix_is(self.refs, old(self.refs), ref_bps, len(ref_bps))
+                and all(ref_bps[j].parser is self for j in range(len(ref_bps)))
+                and tail_tied(self, self.refs, old(self.refs))
+                and appended(self.tables, old(self.tables), blueprint)
+                and all(col_bps[j].parser is self and owned_note(self, col_bps[j].note) for j in range(len(col_bps)))
+                and all(index_bps[j].parser is self and owned_note(self, index_bps[j].note) for j in range(i)))
+
+    # -- enum items
+    def loop3_modifies(self, s, loc, tok):
+        return [loc_cls(NoteBlueprint, 'parser')]
+
+    def loop3_invariant(self, s, loc, tok, blueprint, i):
+        return (appended(self.enums, old(self.enums), blueprint)
+                and all(owned_note(self, blueprint.items[j].note) for j in range(i)))
+
+    def ensures_tied(self, s, loc, tok, result):
+        return tok[0].parser is self
+
+    def ensures_listed(self, s, loc, tok, result):
+        return ((not isinstance(tok[0], TableBlueprint) or appended(self.tables, old(self.tables), tok[0]))
+                and (not isinstance(tok[0], ReferenceBlueprint) or appended(self.refs, old(self.refs), tok[0]))
+                and (not isinstance(tok[0], EnumBlueprint) or appended(self.enums, old(self.enums), tok[0]))
+                and (not isinstance(tok[0], TableGroupBlueprint) or appended(self.table_groups, old(self.table_groups), tok[0]))
+                and (not isinstance(tok[0], StickyNoteBlueprint) or appended(self.sticky_notes, old(self.sticky_notes), tok[0]))
+                and (not isinstance(tok[0], ProjectBlueprint) or self.project is tok[0]))
+
+    def ensures_others_unchanged(self, s, loc, tok, result):
+        return ((isinstance(tok[0], TableBlueprint) or same_list(self.tables, old(self.tables)))
+                and (isinstance(tok[0], (ReferenceBlueprint, TableBlueprint)) or same_list(self.refs, old(self.refs)))
+                and (isinstance(tok[0], EnumBlueprint) or same_list(self.enums, old(self.enums)))
+                and (isinstance(tok[0], TableGroupBlueprint) or same_list(self.table_groups, old(self.table_groups)))
+                and (isinstance(tok[0], StickyNoteBlueprint) or same_list(self.sticky_notes, old(self.sticky_notes)))
+                and (isinstance(tok[0], ProjectBlueprint) or self.project is old(self.project)))
+
+    def ensures_table_columns_tied(self, s, loc, tok, result):
+        return not isinstance(tok[0], TableBlueprint) or \
+            all(tok[0].columns[j].parser is self and owned_note(self, tok[0].columns[j].note)
+                for j in range(len(tok[0].columns)))
+
+    def ensures_table_indexes_tied(self, s, loc, tok, result):
+        return not isinstance(tok[0], TableBlueprint) or tok[0].indexes is None or \
+            all(tok[0].indexes[j].parser is self and owned_note(self, tok[0].indexes[j].note)
+                for j in range(len(tok[0].indexes)))
+
+    def ensures_table_note_tied(self, s, loc, tok, result):
+        return not isinstance(tok[0], TableBlueprint) or owned_note(self, tok[0].note)
+
+    def ensures_inline_refs_collected(self, s, loc, tok, result):
+        return not isinstance(tok[0], TableBlueprint) or \
+            all(col_refs_collected(self.refs, tok[0].columns[j]) for j in range(len(tok[0].columns)))
+
+    def ensures_inline_refs_tied(self, s, loc, tok, result):
+        return not isinstance(tok[0], TableBlueprint) or tail_tied(self, self.refs, old(self.refs))
+
+    def ensures_enum_contents_tied(self, s, loc, tok, result):
+        return not isinstance(tok[0], EnumBlueprint) or all(owned_note(self, it.note) for it in tok[0].items)
+
+    def ensures_project_note_tied(self, s, loc, tok, result):
+        return not isinstance(tok[0], ProjectBlueprint) or owned_note(self, tok[0].note)
